@@ -247,3 +247,24 @@ def readonly_param(P, cls, callee_text, index):
             if not ok:
                 return False
     return True
+
+
+def method_writes(P, cls, name, attr, _seen=None):
+    """True if method `name` of `cls` stores into self.<attr>[...] / self.<attr> itself or through self./super() helpers"""
+    _seen = _seen or set()
+    if name in _seen:
+        return False
+    _seen.add(name)
+    hit = P.lookup(cls, name)
+    if not hit or hit[1] != 'method':
+        return False
+    for n in ast.walk(hit[2]):
+        if isinstance(n, ast.Subscript) and isinstance(n.ctx, (ast.Store, ast.Del)) and isinstance(n.value, ast.Attribute) and n.value.attr == attr \
+                and isinstance(n.value.value, ast.Name) and n.value.value.id == 'self':
+            return True
+        if isinstance(n, ast.Attribute) and n.attr == attr and isinstance(n.ctx, (ast.Store, ast.Del)) and isinstance(n.value, ast.Name) and n.value.id == 'self':
+            return True
+        if isinstance(n, ast.Call) and isinstance(n.func, ast.Attribute) and isinstance(n.func.value, ast.Name) and n.func.value.id == 'self':
+            if method_writes(P, cls, n.func.attr, attr, _seen):
+                return True
+    return False
